@@ -224,6 +224,9 @@ class ConsumerGroup(Entity):
         self._consumers: dict[str, Entity] = {}  # name -> entity
         self._assignments: dict[str, list[int]] = {}  # name -> partition IDs
         self._committed_offsets: dict[str, dict[int, int]] = {}  # name -> {pid: offset}
+        # Highest offset committed for each partition by any member: the
+        # position a new owner resumes from after a rebalance.
+        self._group_offsets: dict[int, int] = {}
         self._generation: int = 0
 
         self._joins = 0
@@ -288,7 +291,7 @@ class ConsumerGroup(Entity):
         lag: dict[int, int] = {}
         for pid in self._assignments[consumer_name]:
             hw = self._event_log.high_watermark(pid)
-            committed = offsets.get(pid, 0)
+            committed = max(offsets.get(pid, 0), self._group_offsets.get(pid, 0))
             lag[pid] = hw - committed
         return lag
 
@@ -467,7 +470,9 @@ class ConsumerGroup(Entity):
             records: list[Record] = []
 
             for pid in assigned:
-                offset = offsets.get(pid, 0)
+                # Resume from the group's committed position: the partition
+                # may have been consumed by another member before a rebalance.
+                offset = max(offsets.get(pid, 0), self._group_offsets.get(pid, 0))
                 remaining = max_records - len(records)
                 if remaining <= 0:
                     break
@@ -494,6 +499,7 @@ class ConsumerGroup(Entity):
                 # Committed offsets are monotone: a late or duplicate commit
                 # of an older position must not rewind the consumer.
                 committed[pid] = max(committed.get(pid, 0), offset)
+                self._group_offsets[pid] = max(self._group_offsets.get(pid, 0), offset)
 
             self._commits += 1
             return None
